@@ -311,6 +311,8 @@ class Ctx:
         A disagreement on which the oracle finds nothing is recorded as a non-concrete violation."""
         nd = 0
         for ln, a, b in zip(lines, impl, model):
+            if a in ("<crash>", "<skipped>"):
+                continue        # the abort itself has been reported by run_impl
             ca = canon(ln, a) if canon else a
             cb = canon(ln, b) if canon else b
             if ca == cb:
